@@ -21,6 +21,7 @@ import Rmk.Impl.Codec
 import Rmk.Impl.Misc
 import Rmk.Impl.Store
 import Rmk.Impl.Virtual
+import Rmk.Impl.StoreGuard
 namespace Rmk.Defects
 open Rmk Rmk.Impl Rmk.Spec
 
@@ -611,5 +612,62 @@ example :
     Impl.pathGindex (.bytelist 40) [.len] = some 3 ∧
     Impl.pathGindex (.container [.uint 1, .bytelist 40]) [.idx 1, .len] = some 7 ∧
     Impl.pathGindex (.bytevector 40) [.len] = none := by decide
+
+/-! ### D17 — a view whose super view refused a change stayed changed (C14); D18 — a union value view of an option that
+    is no longer selected was written back (C14 / C05 / C01) -/
+
+/-- `set_backing` as it was before D17: the new backing is assigned first, then the hook runs; when the hook raises
+    the exception propagates and the view KEEPS the new backing (the repaired code, `Impl.setBacking`, yields no new
+    state at all). Result: the store left behind, and whether the operation raised. -/
+def setBackingUnrepaired (H : Hash) : Nat → Impl.Store → Nat → Node → Impl.Store × Bool
+  | 0, s, _, _ => (s, true)
+  | fuel+1, s, r, n =>
+    match s[r]? with
+    | none => (s, true)
+    | some o =>
+      let s1 := s.set r { o with backing := n }
+      match o.hook with
+      | none => (s1, false)
+      | some (p, key) =>
+        match s1[p]? with
+        | none => (s1, true)
+        | some po =>
+          match Impl.setChildNode H po.ty po.backing key n with
+          | none => (s1, true)          -- the super view refuses: raised, but `r` stays changed
+          | some pn => setBackingUnrepaired H fuel s1 p pn
+
+private def d17Ty : Ty := .list (.container [.uint 1]) 4
+
+/-- a list of two containers; the element view of index 1 is held, the list is popped, then the held view is written:
+    the repaired semantics yields no new state; the unrepaired one raised as well but left the held view changed -/
+private def d17 : Option (Bool × Bool × Bool) := do
+  let b ← Impl.construct H0 d17Ty (.seq [.seq [.num 1], .seq [.num 2]])
+  let s1 ← Impl.step H0 [⟨d17Ty, b, none⟩] (.child 0 1)
+  let s2 ← Impl.step H0 s1 (.mutate 0 .pop)
+  let c ← s2[1]?
+  let n ← Impl.apply H0 c.ty c.backing (.set 0 (.num 9))
+  let (s3, raised) := setBackingUnrepaired H0 2 s2 1 n
+  let c' ← s3[1]?
+  pure ((Impl.step H0 s2 (.mutate 1 (.set 0 (.num 9)))).isNone, raised, c'.backing.root H0 != c.backing.root H0)
+
+example : d17 = some (true, true, true) := by decide
+
+private def d18Ty : Ty := .union false [.list (.uint 1) 4, .container [.uint 1]]
+
+/-- the union holds option 0; its value view is taken; the union is changed to option 1 through the parent; an append
+    through the old value view: the unguarded hook (`Impl.step`, the code before D18) lets it through and the union then
+    holds, under selector 1, a node that is not the tree of any value of option 1's type read back as such —
+    the guarded store (`Impl.stepG`, the repaired code) refuses -/
+private def d18 : Option (Bool × Bool × Option Nat) := do
+  let b ← Impl.construct H0 d18Ty (.un 0 (.seq [.num 1]))
+  let g : Impl.GStore := { views := [⟨d18Ty, b, none⟩], sels := [none] }
+  let g1 ← Impl.stepG H0 g (.child 0 0)
+  let g2 ← Impl.stepG H0 g1 (.mutate 0 (.change 1 (.seq [.num 7])))
+  let parent ← g2.views[0]?
+  pure ((Impl.stepG H0 g2 (.mutate 1 (.append (.num 2)))).isNone,
+        (Impl.step H0 g2.views (.mutate 1 (.append (.num 2)))).isSome,
+        Impl.unionSel H0 parent.backing)
+
+example : d18 = some (true, true, some 1) := by decide
 
 end Rmk.Defects
